@@ -7,6 +7,7 @@ package main
 import (
 	"fmt"
 	"go/ast"
+	"go/constant"
 	"go/token"
 	"go/types"
 	"strings"
@@ -223,8 +224,41 @@ func indexCovered(f *ssa.Function, x ssa.Value, k int64, blk *ssa.BasicBlock) (s
 			}
 		}
 	}
-	// (3) switch-like chains `len(x) == n` handled above; range-over-constant not needed
+	// (3) strings.HasPrefix / HasSuffix(x, "literal") established on every way in: the string is
+	// at least as long as the literal
+	var edges []cfgEdge
+	for _, b := range f.Blocks {
+		iff, ok := b.Instrs[len(b.Instrs)-1].(*ssa.If)
+		if !ok {
+			continue
+		}
+		call, ok := iff.Cond.(*ssa.Call)
+		if !ok {
+			continue
+		}
+		name := calleeName(call.Common())
+		if name != "strings.HasPrefix" && name != "strings.HasSuffix" {
+			continue
+		}
+		lit, ok := call.Call.Args[1].(*ssa.Const)
+		if !ok || lit.Value == nil || !sameSlice(call.Call.Args[0]) {
+			continue
+		}
+		if int64(len(constantStringVal(lit))) > k {
+			edges = append(edges, cfgEdge{b, 0})
+		}
+	}
+	if len(edges) > 0 && edgesDominate(f, edges, blk) {
+		return "a prefix/suffix test with a literal of sufficient length holds on every way in", true
+	}
 	return "", false
+}
+
+func constantStringVal(k *ssa.Const) string {
+	if k.Value == nil || k.Value.Kind() != constant.String {
+		return ""
+	}
+	return constant.StringVal(k.Value)
 }
 
 func lenOperand(v ssa.Value) (ssa.Value, bool) {
@@ -257,10 +291,13 @@ func flipOp(op token.Token) token.Token {
 func staticLen(v ssa.Value) (int64, bool) {
 	switch x := v.(type) {
 	case *ssa.Slice:
-		if x.Low == nil && x.High == nil {
-			if pt, ok := x.X.Type().Underlying().(*types.Pointer); ok {
-				if at, ok := pt.Elem().Underlying().(*types.Array); ok {
+		if pt, ok := x.X.Type().Underlying().(*types.Pointer); ok && x.Low == nil {
+			if at, ok := pt.Elem().Underlying().(*types.Array); ok {
+				if x.High == nil {
 					return at.Len(), true
+				}
+				if k, ok := x.High.(*ssa.Const); ok && isIntConst(k) {
+					return k.Int64(), true
 				}
 			}
 		}
@@ -627,6 +664,10 @@ func noReturnBlock(b *ssa.BasicBlock) bool {
 
 // Sites confirmed by reading that the rules above cannot decide (one line of reason each).
 var confirmedPanicFree = map[string]string{
+	"L13|(*internal/filefmt.CoffFormat).Write|finalBytes[0:coffHeaderSize]":                                      "the buffer starts with a placeholder of coffHeaderSize + 3×coffSectionHeaderSize bytes written before any data (rule P4 checks that order)",
+	"L13|(*internal/filefmt.CoffFormat).Write|finalBytes[currentOffset:currentOffset + coffSectionHeaderSize]": "as above; currentOffset runs over the three section-header slots of that placeholder",
+	"L13|internal/codegen.ResolveOpcode|opStr[i:i + 2]":                                                             "i steps by 2 below len(opStr), whose length was tested to be even",
+	"L13|internal/codegen.handleLGDT|opStr[1:len(opStr) - 1]":                                                       "opStr begins with `[` and ends with `]` (tested just above): two different characters, so it has at least two",
 	"M13b|internal/codegen.getImmediateValue|make with a run-time length": "the length is the immediate width of the matched table row (1, 2 or 4 — rule T5 for the hand-written rows, JSON rows are data of the trusted base)",
 	"M13b|internal/codegen.handleALIGNB|make with a run-time length":      "padding is smaller than the alignment unit, which pass 1 hands over as a positive int32 (processALIGNB converts and rejects the rest)",
 	// sort comparator: i, j range over allEntries[4:], the slice handed to sort.SliceStable
@@ -1013,4 +1054,114 @@ func ruleG13(c *Ctx) {
 		c.check(hasCode, "G13", "grammar rule "+r+"|depth limit", c.L.Pos(rule.Pos.Pos()), fmt.Sprintf("rule %s opens a bracket and reaches itself again through %s with no depth limit: nesting depth is bounded only by the 1 GB goroutine stack", r, strings.Join(back, ", ")))
 	}
 	c.check(n >= 1, "G13", "recursive bracket rules found", "", fmt.Sprintf("%d", n))
+}
+
+// ---------------------------------------------------------------------------------------
+// L13: slice expressions
+// ---------------------------------------------------------------------------------------
+
+func ruleL13(c *Ctx) {
+	c.doc("L13", "every slice expression s[a:b] on a slice or string in gosk's own code with explicit bounds is covered: constant bounds lie within a length established by a dominating test or by construction, and a bound of the form len(s)−c is paired with a test that the length is at least the other bound plus c; otherwise a short operand (`[`, `0x`) is a slice-bounds panic")
+	n := 0
+	for _, f := range c.L.RepoFuncs() {
+		if c.isGeneratedFn(f) || pkgRel(f) == "test" || strings.HasSuffix(c.L.Fset.Position(f.Pos()).Filename, "_enumer.go") || strings.HasSuffix(c.L.Fset.Position(f.Pos()).Filename, "test_helper.go") {
+			continue
+		}
+		per := 0
+		for _, b := range f.Blocks {
+			for _, in := range b.Instrs {
+				sl, ok := in.(*ssa.Slice)
+				if !ok || (sl.Low == nil && sl.High == nil) {
+					continue
+				}
+				if _, isPtr := sl.X.Type().Underlying().(*types.Pointer); isPtr {
+					continue // slicing a fixed array: checked by the compiler for constants
+				}
+				if fn := c.L.Fset.Position(sl.Pos()).Filename; strings.HasSuffix(fn, "_enumer.go") || strings.HasSuffix(fn, "_test.go") {
+					continue // generated by enumer
+				}
+				n++
+				per++
+				key := fmt.Sprintf("%s|slice expression#%d", shortName(f), per)
+				why, ok := sliceExprCovered(f, sl, b)
+				if !ok {
+					if reason, frozen := confirmedPanicFree["L13|"+shortName(f)+"|"+srcSliceAt(c, f, sl.Pos())]; frozen {
+						why, ok = "confirmed by reading: "+reason, true
+					}
+				}
+				if ok {
+					c.ok("L13", key, c.L.Pos(instrPos(in)), why)
+				} else {
+					c.fail("L13", key, c.L.Pos(instrPos(in)), fmt.Sprintf("%s slices %s with bounds that no test on the way relates to its length", shortName(f), srcSliceAt(c, f, sl.Pos())))
+				}
+			}
+		}
+	}
+	c.analysed["L13_slice_expressions"] = n
+	c.floor("L13", 10)
+}
+
+func srcSliceAt(c *Ctx, f *ssa.Function, pos token.Pos) string {
+	if !pos.IsValid() || f.Pkg == nil {
+		return "?"
+	}
+	for _, p := range c.L.Pkgs {
+		if p.Types != f.Pkg.Pkg {
+			continue
+		}
+		for _, file := range p.Syntax {
+			if pos < file.Pos() || pos >= file.End() {
+				continue
+			}
+			out := ""
+			ast.Inspect(file, func(n ast.Node) bool {
+				if x, ok := n.(*ast.SliceExpr); ok && x.Lbrack == pos {
+					out = types.ExprString(x)
+				}
+				return out == ""
+			})
+			return out
+		}
+	}
+	return "?"
+}
+
+func sliceExprCovered(f *ssa.Function, sl *ssa.Slice, blk *ssa.BasicBlock) (string, bool) {
+	x := sl.X
+	constOf := func(v ssa.Value) (int64, bool) {
+		if v == nil {
+			return 0, true
+		}
+		if k, ok := v.(*ssa.Const); ok && isIntConst(k) {
+			return k.Int64(), true
+		}
+		return 0, false
+	}
+	need := func(minLen int64) (string, bool) {
+		if minLen <= 0 {
+			return "no length needed", true
+		}
+		return indexCovered(f, x, minLen-1, blk)
+	}
+	lo, loK := constOf(sl.Low)
+	// high = len(x) - c
+	if bo, ok := sl.High.(*ssa.BinOp); ok && bo.Op == token.SUB {
+		if l, ok := lenOperand(bo.X); ok {
+			same := l == x || (lenKey(f, l) != "" && lenKey(f, l) == lenKey(f, x))
+			if c2, ok := constOf(bo.Y); ok && same && loK {
+				why, ok := need(lo + c2)
+				return "s[" + fmt.Sprint(lo) + ":len-" + fmt.Sprint(c2) + "]; " + why, ok
+			}
+		}
+	}
+	if sl.High == nil && loK {
+		return need(lo)
+	}
+	if hi, ok := constOf(sl.High); ok && loK && sl.High != nil {
+		if lo > hi {
+			return "", false
+		}
+		return need(hi)
+	}
+	return "", false
 }
